@@ -653,7 +653,8 @@ def _edge_class_fn(graph):
     return cls
 
 
-def replay_class_tree(p: Program, graph: tlc.Graph, *, seed=0, deadline=None, covered=None, all_edges=False, adapter=None):
+def replay_class_tree(p: Program, graph: tlc.Graph, *, seed=0, deadline=None, covered=None, all_edges=False, adapter=None, on_node=None):
+    # on_node(impl, node, observed, path) -> list of mismatch dicts: extra checks in every newly reached state (selection queries, compaction)
     # adapter (optional; used by the in-memory stage of C10 / C39): dict with make(p, seed) -> impl, apply(impl, label), expect(node) -> dict,
     # observe(impl) -> dict, save(impl) -> state, load(impl, state); default: Impl / COMPARE / the database only
     """One representative edge (a shallowest one) of every edge CLASS - (action, first argument, job / update / cancellation state of
@@ -755,6 +756,13 @@ def replay_class_tree(p: Program, graph: tlc.Graph, *, seed=0, deadline=None, co
                 done += 1
                 replay_class_tree.paths += 1        # a path from the initial state ending with this edge was executed and compared
             else:
+                if on_node is not None:
+                    # extra checks in the newly reached state; what they do to the tables (compaction of the billing shards: same
+                    # totals, other rows) is kept, so that the following steps also run on compacted tables
+                    extra = on_node(impl, v, got, path + [lab])
+                    if extra:
+                        mism.extend(extra)
+                        continue
                 stack.append((v, path + [lab], adapter["save"](impl), work(v)))
         sqlerrs = [dict(path=[], error=e) for e in impl.sqlerrors]
     finally:
@@ -778,7 +786,27 @@ def replay_graph(ctx, p: Program, graph: tlc.Graph, *, seed=0, max_steps=None, f
     span = None if deadline is None else max(0.0, deadline - t0)
     # (the class pass may overrun the program's share of the budget on a slow machine: what a check detects must not depend on load)
     cdl = None if deadline is None else t0 + 2.5 * span
-    csteps, cdone, ctotal, cmism, cerrs = replay_class_tree(p, graph, seed=seed, deadline=cdl, covered=covered)
+    out_edges = graph.out_edges() if check_selection else {}
+    sel_checked = set()
+    sel_problems = []
+
+    def on_node(impl, node, got, path):
+        bad = []
+        if "billing" in p.features:
+            # C02: compacting the sharded billing tables (real driver.main functions) never changes any total
+            r1, r2 = impl.w.compact_billing()
+            after = impl.project()
+            dc = diff({x: got[x] for x in COMPARE if x in got}, {x: after[x] for x in COMPARE})
+            if dc or r1.kind != "ok" or r2.kind != "ok":
+                bad.append(dict(path=list(path) + ["<compact>"], label="Compact", diff=dc or {"ubp": {"error": repr((r1, r2))}}))
+        if check_selection and node not in sel_checked:
+            sel_checked.add(node)
+            full = impl.project()
+            sel_problems.extend(check_selection_at(p, impl, full, out_edges.get(node, ()), path))
+        return bad
+
+    csteps, cdone, ctotal, cmism, cerrs = replay_class_tree(p, graph, seed=seed, deadline=cdl, covered=covered,
+                                                            on_node=on_node if (check_selection or "billing" in p.features) else None)
     npaths = replay_class_tree.paths
     steps += csteps
     mism += cmism
@@ -794,9 +822,6 @@ def replay_graph(ctx, p: Program, graph: tlc.Graph, *, seed=0, max_steps=None, f
         sqlerrs += eerrs
         class_stats["rewinding_steps"] = csteps + esteps
     class_stats["rewinding_paths"] = npaths
-    out_edges = graph.out_edges() if check_selection else {}
-    sel_checked = set()
-    sel_problems = []
     for wk in prioritised(graph, walks, covered):
         if mism:
             break
